@@ -171,15 +171,20 @@ def normal_class(v):
 
 
 def run_l2_normals(ctx, case):
-    """case: {kind: l2_normal, form: array|frame, vecs: [[ints, 1/8 units]], expected: [{num, den}], npseed}"""
+    """case: {kind: l2_normal, form: array|frame, order: zxz|zzx, vecs: [[ints, 1/8 units]], expected: [{num, den}], npseed}
+    output_order "zzx" returns the same orientation with its angles listed as (phi, psi, theta)."""
     import pandas as pd
     from cryocat import geom
     v = np.asarray(case["vecs"], dtype=float).reshape(-1, 3) / geo.U
     arg = v.copy() if case["form"] == "array" else pd.DataFrame(v.copy(), columns=["x", "y", "z"])
+    order = case.get("order", "zxz")
     np.random.seed(case["npseed"])
-    got, err = core.call_guarded(geom.normals_to_euler_angles, arg)
+    if order == "zxz" and case["npseed"] % 2 == 0:
+        got, err = core.call_guarded(geom.normals_to_euler_angles, arg)           # default order
+    else:
+        got, err = core.call_guarded(geom.normals_to_euler_angles, arg, output_order=order)
     cls = normal_class(case["vecs"][0]) if len(case["vecs"]) == 1 else "batch"
-    sig = {"op": "normals_to_euler_angles", "normal": cls}
+    sig = {"op": "normals_to_euler_angles", "normal": cls, "order": order}
     if err is not None:
         ctx.fail("call_raises", err, case, sig)
         ctx.ran(case)
@@ -189,9 +194,11 @@ def run_l2_normals(ctx, case):
         ctx.fail("C06_EulerFromNormalHasThatZAxis", "returned shape %s for %d normals" % (got.shape, v.shape[0]), case, sig)
         ctx.ran(case)
         return
+    if order == "zzx":
+        got = got[:, [0, 2, 1]]          # (phi, psi, theta) -> (phi, theta, psi)
     for k, e in enumerate(case["expected"]):
         want = np.asarray(e["num"], dtype=float) / float(e["den"])
-        sigk = {"op": "normals_to_euler_angles", "normal": normal_class(case["vecs"][k])}
+        sigk = {"op": "normals_to_euler_angles", "normal": normal_class(case["vecs"][k]), "order": order}
         if not finite(got[k]):
             ctx.fail("C06_EulerFromNormalHasThatZAxis", "angles %s for normal %s" % (got[k].tolist(), v[k].tolist()), case, sigk)
             continue
@@ -387,18 +394,23 @@ def normals_trace(case):
             ev1["norm"].append(q9(np.linalg.norm(got[k]) - 1.0))
             ev1["dev"].append(q9(np.max(np.abs(got[k] - z))))
     v = np.asarray(case["normals"], dtype=float).reshape(-1, 3)
-    np.random.seed(case["npseed"])
-    ang = np.asarray(geom.normals_to_euler_angles(v.copy()), dtype=float)
-    ev2 = {"kind": "tonormal", "n": int(v.shape[0]), "rows": int(ang.shape[0]) if ang.ndim == 2 else -1,
-           "cols": int(ang.shape[1]) if ang.ndim == 2 else -1, "dev": []}
-    if ang.ndim == 2 and ang.shape == v.shape:
-        for k in range(v.shape[0]):
-            want = v[k] / math.sqrt(float(v[k] @ v[k]))
-            if finite(ang[k]):
-                ev2["dev"].append(q9(np.max(np.abs(geo.zxz_matrix(*ang[k])[:, 2] - want))))
-            else:
-                ev2["dev"].append(NAN_CODE)
-    return [ev1, ev2]
+    out = [ev1]
+    for order in ("zxz", "zzx"):
+        np.random.seed(case["npseed"])
+        ang = np.asarray(geom.normals_to_euler_angles(v.copy(), output_order=order), dtype=float)
+        ev2 = {"kind": "tonormal", "order": order, "n": int(v.shape[0]), "rows": int(ang.shape[0]) if ang.ndim == 2 else -1,
+               "cols": int(ang.shape[1]) if ang.ndim == 2 else -1, "dev": []}
+        if ang.ndim == 2 and ang.shape == v.shape:
+            if order == "zzx":
+                ang = ang[:, [0, 2, 1]]      # listed as (phi, psi, theta)
+            for k in range(v.shape[0]):
+                want = v[k] / math.sqrt(float(v[k] @ v[k]))
+                if finite(ang[k]):
+                    ev2["dev"].append(q9(np.max(np.abs(geo.zxz_matrix(*ang[k])[:, 2] - want))))
+                else:
+                    ev2["dev"].append(NAN_CODE)
+        out.append(ev2)
+    return out
 
 
 FIELD_OP = {"ang": "angular_distance", "ang_ba": "angular_distance", "ang_aa": "angular_distance",
@@ -419,7 +431,7 @@ def signature_for(case, ev, verdict):
         return {"op": FIELD_OP.get(f, "angular_distance"), "pair": cls, "nan": any(v == NAN_CODE for v in vals)}
     if ev["kind"] == "normals":
         return {"op": "euler_angles_to_normals", "batch": "one" if ev["n"] == 1 else "many"}
-    return {"op": "normals_to_euler_angles", "normal": "real"}
+    return {"op": "normals_to_euler_angles", "normal": "real", "order": ev.get("order", "zxz")}
 
 
 def run_l3(ctx, cases, name="trace"):
@@ -513,6 +525,7 @@ def run(ctx):
         "projection alpha: own Euler->matrix routine; relative-rotation angle and z-axis angle of the inputs from the "
         "driver's matrices (atan2 forms); angles compared at 2e-4 degree, vectors at 1e-9 (exact layer) / 1e-6 (real)",
         "the in-plane distance is only constrained as the property words it: in [0,180], 0 for equal orientations",
+        "output_order='zzx' of normals_to_euler_angles lists the same orientation as (phi, psi, theta)",
         "normals_to_euler_angles draws phi from numpy's global generator; the driver seeds it per call",
     ]
     W = 4
@@ -561,13 +574,14 @@ def run(ctx):
     # ---- L2 normals: singly (array / DataFrame), and all of them in one call
     for t in normals:
         for form in ("array", "frame"):
-            run_l2_normals(ctx, {"kind": "l2_normal", "form": form, "vecs": [t["inp"]["v"]],
-                                 "expected": [t["out"]["zaxis"]], "npseed": rng.randrange(2 ** 31)})
-    for r in range(ctx.pick(2, 10)):
+            for order in ("zxz", "zzx"):
+                run_l2_normals(ctx, {"kind": "l2_normal", "form": form, "order": order, "vecs": [t["inp"]["v"]],
+                                     "expected": [t["out"]["zaxis"]], "npseed": rng.randrange(2 ** 31)})
+    for r in range(ctx.pick(4, 12)):
         order = list(range(len(normals)))
         rng.shuffle(order)
         sel = [normals[i] for i in order[:rng.randint(2, len(order))]]
-        run_l2_normals(ctx, {"kind": "l2_normal", "form": "array" if r % 2 == 0 else "frame",
+        run_l2_normals(ctx, {"kind": "l2_normal", "form": "array" if r % 2 == 0 else "frame", "order": ["zxz", "zzx"][(r // 2) % 2],
                              "vecs": [t["inp"]["v"] for t in sel], "expected": [t["out"]["zaxis"] for t in sel],
                              "npseed": rng.randrange(2 ** 31)})
     ctx.exhaustive["L2_batches_and_normals"] = True
